@@ -380,6 +380,53 @@ func genTable(cfg Config, emit0 func(string, bool, []string)) {
 			emit("table index-wide-channels", true, g.ops)
 			continue
 		}
+		if c%40 == 37 {
+			// one transaction marks the table's LAST pending initializer done and registers a new one:
+			// the table never becomes initialized, so the watch channel a snapshot handed out before stays
+			// open — whether that transaction commits or aborts — until the new initializer is done too
+			g.add("wtxn m")
+			g.add("reginit m init0")
+			g.add("commit")
+			g.nsnap++
+			g.add("rtxn")
+			g.nsnap++
+			h := fmt.Sprintf("s%d", g.nsnap-1)
+			g.add("inited %s m", h)
+			g.add("inited - m")
+			nextInit := 1
+			for k := 0; k < 2; k++ {
+				g.add("wtxn m")
+				g.add("initdone %d", nextInit-1)
+				g.add("reginit m init%d", nextInit)
+				g.add("inited w m")
+				commit := k == 1 || r.IntN(2) == 0
+				if commit {
+					g.add("commit")
+					g.nsnap++
+					nextInit++
+				} else {
+					g.add("abort")
+					// the aborted registration consumed the name slot of the harness only
+					nextInit++
+					g.add("wtxn m")
+					g.add("initdone %d", nextInit-2)
+					g.add("reginit m init%d", nextInit)
+					g.add("commit")
+					g.nsnap++
+					nextInit++
+				}
+				g.add("inited - m")
+				g.add("inited %s m", h)
+			}
+			g.add("wtxn m")
+			g.add("initdone %d", nextInit-1)
+			g.add("commit")
+			g.nsnap++
+			g.add("inited - m")
+			g.add("inited %s m", h)
+			emit("table init-handover", true, g.ops)
+			continue
+		}
 		if c%40 == 27 {
 			// objects with 8-12 tags (the first one not the smallest), updated with the same / a shifted
 			// tag set: every tag still lists the object, dropped tags do not
@@ -892,7 +939,9 @@ func genTable(cfg Config, emit0 func(string, bool, []string)) {
 			g.add("ins a %s 9 0 - - 0 9", hx([]byte{'h', 9}))
 			// a second writer commits to m meanwhile: the iterator of m driven through THIS transaction
 			// (which does not hold m) keeps seeing the state the transaction started from
-			g.add("side m %s 8 0 - - 0 8", hx([]byte{'g', 8}))
+			if r.IntN(2) == 0 {
+				g.add("side m %s 8 0 - - 0 8", hx([]byte{'g', 8}))
+			}
 			g.add("next 0 w -1")
 			g.add("all w m")
 			g.add("gcwhile")
@@ -2342,7 +2391,36 @@ func (e *tableExec) do(o *Out, f []string) string {
 		if e.wtxn == nil {
 			return "nil"
 		}
+		// C05 / C02: a commit publishes the tables its transaction holds and nothing else — what other
+		// transactions (a `side` writer, the collector, an initializer mark, an iterator registration)
+		// committed to the OTHER tables meanwhile stays as it is
+		type unheld struct {
+			rev          uint64
+			num, glen    int
+			init         bool
+			pending, tag string
+		}
+		snapUnheld := func(rtx statedb.ReadTxn) map[string]unheld {
+			out := map[string]unheld{}
+			for _, tn := range []string{"m", "a"} {
+				if strings.Contains(e.wtables, tn) {
+					continue
+				}
+				tb := e.tbl(tn)
+				ini, _ := tb.Initialized(rtx)
+				out[tn] = unheld{rev: tb.Revision(rtx), num: tb.NumObjects(rtx), glen: statedb.VerifGraveyardLen(rtx, tb), init: ini, pending: fmt.Sprint(tb.PendingInitializers(rtx))}
+			}
+			return out
+		}
+		beforeUnheld := snapUnheld(e.db.ReadTxn())
 		rtx := e.wtxn.Commit()
+		for tn, b := range beforeUnheld {
+			if a := snapUnheld(rtx)[tn]; a != b {
+				o.Fail("C05", "commit-changed-a-table-it-does-not-hold", map[string]string{"table": tn},
+					fmt.Sprintf("table %s is not held by the committing transaction; before its Commit a fresh snapshot showed revision %d, %d objects, %d retained deletions, initialized=%v pending=%s; the snapshot Commit returned shows revision %d, %d objects, %d retained deletions, initialized=%v pending=%s",
+						tn, b.rev, b.num, b.glen, b.init, b.pending, a.rev, a.num, a.glen, a.init, a.pending))
+			}
+		}
 		e.lastHandle = e.wtxn
 		e.wtxn = nil
 		// a deletion is only retained for a change iterator that exists: with no tracker registered
